@@ -44,6 +44,7 @@ type Event struct {
 	LB    int `json:"lb,omitempty"`     // which pending loopback
 	DtSec int  `json:"dt_sec,omitempty"` // tick: virtual seconds before the cleanup tick; budget: retry count to set
 	FullQ bool `json:"full_q,omitempty"` // tick: the outbound re-observation request queue is full during the tick
+	FullS bool `json:"full_send,omitempty"` // tick: the outbound gossip queue is full during the tick (consumer busy)
 }
 
 func (e Event) String() string {
@@ -62,6 +63,9 @@ func (e Event) String() string {
 	case "inject":
 		return fmt.Sprintf("Inject(%d)", e.M)
 	case "tick":
+		if e.FullS {
+			return fmt.Sprintf("Tick(+%ds,gossip queue full)", e.DtSec)
+		}
 		if e.FullQ {
 			return fmt.Sprintf("Tick(+%ds,request queue full)", e.DtSec)
 		}
